@@ -29,15 +29,17 @@ def run(rep):
     rep.rule('R02.c', 'dict-merge layer order (later wins) is a linear extension of the required precedence')
     rep.rule('R02.d', 'layer sources are plain names/attributes/literals: values are moved, not copied')
     rep.rule('R02.e', 'availability sets per phase (truth tables)')
-    chain.check_generated_level(rep, 'R02.a', 'R02.b', 'R02.a', 'R02.a', 'R02.b')
-    chain.check_request_core(rep, 'R02.a', rule_kw='R02.a')
-    chain.check_inject(rep, 'R02.b', 'R02.c')
-    chain.check_accessors(rep, 'R02.b', kinds=False)
-    chain.check_request_layers(rep, 'R02.c', 'R02.d')
-    chain.check_phase_sets(rep, 'R02.e', rule_pair='R02.e', rule_core_env='R02.e')
-    chain.check_make_chain(rep, 'R02.e', 'R02.e')
-    rep.floor('R02.a', 8)
-    rep.floor('R02.b', 8)
-    rep.floor('R02.c', 7)
-    rep.floor('R02.d', 4)
-    rep.floor('R02.e', 10)
+    g = rep.guard
+    g(chain.check_generated_level, rep, 'R02.a', 'R02.b', 'R02.a', 'R02.a', 'R02.b')
+    g(chain.check_request_core, rep, 'R02.a', rule_kw='R02.a')
+    g(chain.check_inject, rep, 'R02.b', 'R02.c')
+    g(chain.check_accessors, rep, 'R02.b', kinds=False)
+    g(chain.check_request_layers, rep, 'R02.c', 'R02.d')
+    g(chain.check_phase_sets, rep, 'R02.e', rule_pair='R02.e', rule_core_env='R02.e')
+    g(chain.check_make_chain, rep, 'R02.e', 'R02.e')
+    if not rep.gaps:
+        rep.floor('R02.a', 8)
+        rep.floor('R02.b', 8)
+        rep.floor('R02.c', 7)
+        rep.floor('R02.d', 4)
+        rep.floor('R02.e', 10)
